@@ -3,7 +3,7 @@ from __future__ import annotations
 import json, math, os, subprocess, sys, warnings
 import numpy as np
 from .. import core, gen
-from . import c19_tas, c19_har
+from . import c19_tas, c19_har, c19_lbp
 
 ID = 'C19'
 LEVEL = 'proof'
@@ -361,6 +361,7 @@ def _eval_lbp(case):
         mh = core.ints(drv['hist'])
         if mh != [int(x) for x in h]:
             findings.append(dict(kind='model', key='lbp:histogram-model', detail=dict(got=[int(x) for x in h][:40], model=mh[:40])))
+        findings.extend(c19_lbp.sampling_findings(im, P, R, iz, cl))
     return dict(findings=findings, nontrivial=bool(len(set(cl)) > 1), sig=json.dumps(case, sort_keys=True), tags=tags)
 
 
